@@ -26,6 +26,25 @@ def reproduces(f):
         chk.set("timeout", 20000)
         chk.add(s._solver.assertions())
         return str(chk.check()) == e["result"]
+    if e["kind"] in ("solution", "excel_name_erased"):
+        import processscheduler as ps
+        with smrun.silent():
+            sol = ps.SchedulingSolver(problem=real.problem).solve()
+        if not sol:
+            return False
+        if e["kind"] == "solution":
+            t = sol.tasks[e["task"]]
+            return t.scheduled == e["scheduled"] and bool(t.assigned_resources) == e["assigned_nonempty"]
+        import os, shutil, tempfile
+        from harness import outch
+        tmp = tempfile.mkdtemp(prefix="psfind_")
+        try:
+            fn = os.path.join(tmp, "x.xlsx")
+            sol.to_excel_file(fn)
+            cells = outch.read_xlsx(fn)["GANTT Task view"][0]
+            return e["task"] not in cells.values()
+        finally:
+            shutil.rmtree(tmp, ignore_errors=True)
     if e["kind"] == "calls":
         import processscheduler as ps
         with smrun.silent():
